@@ -165,7 +165,7 @@ func TestC14(t *testing.T) {
 		scratch = t.TempDir()
 	}
 	os.MkdirAll(scratch, 0o755)
-	nAck := run.Scale(12, 70)
+	nAck := run.Scale(12, 200)
 	for i := 0; i < nAck; i++ {
 		rng := run.Rand(uint64(i))
 		dir := filepath.Join(scratch, fmt.Sprintf("c%d", i))
